@@ -25,7 +25,7 @@ from pyvc.values import *
 from pyvc.speclib import implies, matches
 from lbry.wallet.header import Headers, InvalidHeader
 from lbry.wallet.util import ArithUint256
-from lbry.crypto.hash import sha256
+from lbry.crypto.hash import sha256, double_sha256
 
 U32 = TInt(0, 2 ** 32 - 1)
 HEX64 = TBytes(length=64)
@@ -474,23 +474,39 @@ class RestartRepair:
 
 @proof("C07", "checkpoint.fetch_chunk")
 class CheckpointChunk:
-    """BOUNDED stand-in: a chunk fetched for a checkpointed height is written only if it hashes to the checkpoint; a mismatch raises
-    and writes nothing"""
+    """BOUNDED stand-in: a chunk fetched for a checkpointed height is written only if ALL of it hashes to the checkpoint; every other
+    reply (one byte altered, headers or bytes appended, truncated, empty) raises and writes nothing"""
     bounded_only = True
-    note = "a 3-header chunk against its own checkpoint hash, with every single-byte alteration at 12 positions"
+    note = ("a 3-header chunk against its own checkpoint hash: honest, every single-byte alteration at 12 positions, 1..2 headers / "
+            "1 byte appended, 1 header / 1 byte cut off, empty, the chunk twice; a full 1000-header chunk honest / with 1..2 headers or 1 byte "
+            "behind it / one header short")
     inputs = dict(pos=TInt())
 
     def run(pos):
         import base64
         import zlib
-        chain = b''.join(linked_chain(3, salt=5))
+        longer = linked_chain(5, salt=5)
+        chain = b''.join(longer[:3])
 
         class Chk(Headers):
             validate_difficulty = False
             genesis_hash = None
             checkpoints = {0: hh(chain).decode()}
 
-        served = chain if pos < 0 else chain[:pos] + bytes([chain[pos] ^ 1]) + chain[pos + 1:]
+        if pos <= -20:
+            # a full chunk of 1000 headers (what a checkpoint covers on the main net), delivered with something behind it
+            big = _cached_chain(1002)
+            chain = b''.join(big[:1000])
+            served = {-20: chain, -21: chain + big[1000], -22: chain + big[1000] + big[1001], -23: chain + b'\x00', -24: chain[:-112]}[pos]
+            Chk.checkpoints = {0: hh(chain).decode()}
+            honest = pos == -20
+        elif pos >= 0:
+            served = chain[:pos] + bytes([chain[pos] ^ 1]) + chain[pos + 1:]
+            honest = False
+        else:
+            served = {-1: chain, -2: chain + longer[3], -3: chain + longer[3] + longer[4], -4: chain + b'\x00', -5: chain[:-112],
+                      -6: chain[:-1], -7: b'', -8: chain + chain}[pos]
+            honest = pos == -1
 
         async def getter(start):
             comp = zlib.compressobj(wbits=-15)
@@ -508,14 +524,83 @@ class CheckpointChunk:
                 raised = True
             return raised, h.io.getvalue()
         raised, content = asyncio.run(go())
-        return (pos < 0 and not raised and content == chain) or (pos >= 0 and raised and content == b'')
+        return (honest and not raised and content == chain) or (not honest and raised and content == b'')
 
     def ensures_only_checkpointed_bytes_written(result):
         return result
 
     def samples():
-        for pos in (-1, 0, 3, 4, 35, 36, 100, 111, 112, 200, 300, 335):
+        for pos in (-1, -2, -3, -4, -5, -6, -7, -8, -20, -21, -22, -23, -24, 0, 3, 4, 35, 36, 100, 111, 112, 200, 300, 335):
             yield dict(pos=pos)
+
+
+def _identity_model(interp, st, args, kwargs):
+    yield st, args[0]
+
+
+def _wire(chunk):
+    """the transport encoding a server applies (native runs); the identity on the symbolic side, like its two inverses"""
+    import base64
+    import zlib
+    comp = zlib.compressobj(wbits=-15)
+    return base64.b64encode(comp.compress(chunk) + comp.flush()).decode()
+
+
+class _ChunkServer:
+    def __init__(self, chunk):
+        self.chunk = chunk
+        self.asked = []
+
+    async def __call__(self, start):
+        self.asked.append(start)
+        return {'base64': self.chunk}
+
+
+@proof("C07", "checkpoint.fetch_chunk[any]")
+class CheckpointChunkAny:
+    """for ARBITRARY bytes a server delivers as the chunk of a checkpointed height (any length, any content) and any checkpoint value:
+    something is written only if the double SHA-256 of EXACTLY the delivered bytes is the checkpoint, what is written at the chunk's
+    offset is exactly those bytes, the chunk is then no longer listed as missing; in every other case the call raises and the file is
+    untouched.  (zlib/base64 transport decoding is the identity on the symbolic side: the statement is about the decoded bytes.)"""
+    import base64 as _b64
+    import zlib as _zlib
+    inputs = dict(chunk=TBytes(), cp=TStr(), height=TOneOf(TConst(0), TConst(1), TConst(999)), missing=TBool())
+    models = {_b64.b64decode: _identity_model, _zlib.decompress: _identity_model, _wire: _identity_model}
+    note = "honest 3-header chunk, altered, extended, truncated replies (native: real zlib/base64 transport)"
+    raises = {Exception: lambda chunk, cp: hexlify(double_sha256(chunk)[::-1]).decode() != cp}
+
+    async def run(chunk, cp, height, missing):
+        import base64
+        import io
+        import zlib
+        h = NoCheckpoints(':memory:')
+        h.io = io.BytesIO()
+        h._size = 0
+        h.checkpoints = {0: cp}
+        h.known_missing_checkpointed_chunks = {0} if missing else set()
+        server = _ChunkServer(_wire(chunk))
+        h.chunk_getter = server
+        await h.fetch_chunk(height)
+        return h.io.getvalue(), sorted(h.known_missing_checkpointed_chunks), server.asked
+
+    def ensures_written_bytes_are_the_hashed_bytes(chunk, cp, result):
+        return result[0] == chunk and hexlify(double_sha256(chunk)[::-1]).decode() == cp
+
+    def ensures_no_longer_missing_and_asked_once_for_the_chunk_start(result):
+        return result[1] == [] and result[2] == [0]
+
+    def samples():
+        longer = linked_chain(5, salt=5)
+        chain = b''.join(longer[:3])
+        good = hh(chain).decode()
+        for served in (chain, chain + longer[3], chain[:-112], chain[:-1], b'', chain + b'\x00', chain[:7] + b'\xff' + chain[8:]):
+            for missing in (True, False):
+                yield dict(chunk=served, cp=good, height=5, missing=missing)
+        yield dict(chunk=chain, cp='00' * 32, height=0, missing=True)
+        big = _cached_chain(1001)
+        full = b''.join(big[:1000])
+        yield dict(chunk=full, cp=hh(full).decode(), height=999, missing=True)
+        yield dict(chunk=full + big[1000], cp=hh(full).decode(), height=999, missing=True)
 
 
 TRUSTED = [
@@ -530,6 +615,7 @@ NOT_DECIDED = [
     "connect() with difficulty validation on for arbitrary bytes (bounded: the 20 real main-net headers with every single alteration)",
     "restart/repair for all file contents (bounded: chains up to 74 headers, every damaged position, cuts near the tip); damage confined "
     "to non-link fields of the tip is not detected by repair (links only) until the next connect",
-    "fork handling in Ledger.update_headers; checkpoint chunks beyond the bounded case",
+    "fork handling in Ledger.update_headers (C08 carries the cache clause); the zlib/base64 transport of checkpoint chunks (identity in the "
+    "deductive proof, real in the bounded cases); get_all_missing_headers on open",
 ]
 ASSUMPTIONS = ["batches are a multiple of 112 bytes (asserted by the code)"]
